@@ -186,7 +186,7 @@ ahc (void *cls, struct MHD_Connection *c, const char *url, const char *method, c
   lp_puthex (hout, c->rq.url, c->rq.url_len);
   fputs (" args=", hout);
   MHD_get_connection_values_n (c, MHD_GET_ARGUMENT_KIND, &print_arg, &nargs);
-  if (0 == nargs) fputc ('-', hout);
+  if (0 == nargs) fputs ("none", hout);
   fputc (' ', hout);
   if (! do_action (c)) fputs ("bad-action", hout);
   r = MHD_create_response_from_buffer_static (2, "ok");
@@ -308,6 +308,8 @@ int main (void)
           rb[got] = 0;
           if (got >= 6 && 0 == memcmp (rb + got - 6, "\r\n\r\nok", 6))
             done = 1;               /* the reply of the handler has arrived completely */
+          if (got >= 4 && !strcmp (l.w[1], "HEAD") && 0 == memcmp (rb + got - 4, "\r\n\r\n", 4))
+            done = 1;               /* … which has no body for HEAD */
           if (got > sizeof(rb) - 512) { memmove (rb, rb + got - 16, 16); got = 16; }
         }
         if (0 == r) done = 1;   /* closed by the server */
